@@ -22,10 +22,10 @@ type Profile struct {
 	RawRemove bool
 }
 
-var opNames = []string{"write", "read", "usnap", "asnap", "remove", "rawremove", "markremoved", "revert", "reopen", "reload", "resize", "setcp", "lunmap"}
+var opNames = []string{"write", "read", "usnap", "asnap", "remove", "rawremove", "markremoved", "revert", "reopen", "reload", "resize", "setcp", "lunmap", "cwrite"}
 
 func Profiles(prop string) Profile {
-	base := map[string]int{"write": 40, "read": 12, "usnap": 7, "asnap": 7, "remove": 5, "rawremove": 3, "markremoved": 2, "revert": 3, "reopen": 5, "reload": 1, "resize": 1, "setcp": 4, "lunmap": 2}
+	base := map[string]int{"write": 40, "read": 12, "usnap": 7, "asnap": 7, "remove": 5, "rawremove": 3, "markremoved": 2, "revert": 3, "reopen": 5, "reload": 1, "resize": 1, "setcp": 4, "lunmap": 2, "cwrite": 2}
 	cp := func(over map[string]int) map[string]int {
 		m := map[string]int{}
 		for k, v := range base {
@@ -349,6 +349,8 @@ func (e *Engine) Step(p Profile) bool {
 		e.Reload()
 	case "lunmap":
 		e.LunMap()
+	case "cwrite":
+		e.ConcurrentSubBlockWrites(e.R.Range(2, 8), e.R.Range(5, 40))
 	case "resize":
 		if e.M.Size/Block > 600 {
 			return false
